@@ -2,6 +2,7 @@ package props
 
 import (
 	"go/token"
+	"strings"
 
 	"golang.org/x/tools/go/ssa"
 
@@ -314,6 +315,18 @@ func c01() []*Ob {
 				if n == 0 {
 					c.Undecided("prov:writeSyncer:none", token.NoPos, "no construction of frac.writeSyncer found")
 				}
+			}},
+		{Prop: "C01", ID: "C01.14", Engine: "ERRFLOW", Floor: 3,
+			Desc: "a short read is reported: in the methods of disk.DocBlocksReader (what Replay reads the log with) and their helpers no error of ReadLimiter.ReadAt is discarded — a torn last block must come back as (partial, io.EOF) so that Replay ends the log in front of it; a speculative read that drops the error hands Replay a zero-padded block as if it were complete, and the index worker panics on it at every start",
+			Check: func(c *Ctx) {
+				scope := c.P.FuncsMatching(func(name string, fn *ssa.Function) bool {
+					return strings.HasPrefix(name, "(*disk.DocBlocksReader).") || strings.HasPrefix(name, "(disk.DocBlocksReader).")
+				})
+				if len(scope) == 0 {
+					c.Undecided("errflow:DocBlocksReader:none", token.NoPos, "disk.DocBlocksReader has no methods any more")
+					return
+				}
+				ErrFlowCheck(c, scope, nil)
 			}},
 		{Prop: "C01", ID: "C01.6", Engine: "ERRFLOW+TRUNC(ORDER+PROV+OWN)", Floor: 2,
 			Desc: "Replay is tolerant and consistent with appending: io.EOF from ReadDocBlock ends the log (no error, no fatal sink), other errors are returned; before every success return both files are truncated to the replayed positions and the FileWriter append offsets are re-based there (otherwise the next append lands behind a torn tail / orphan block and the next replay misreads the files)",
